@@ -22,16 +22,34 @@ CONVERSIONS = {"array", "asarray", "append", "concatenate", "list", "tuple", "as
 # R1.7: reads that are infeasible for a reason the path facts cannot see.
 # One symbol per line, with the reason (confirmed by reading the code).
 DA_EXCEPTIONS = {
-    ("MonteCarloEER._estimate_current_error", "err"):
+    # key: (file, canonical texts of the statements that bind the local) - independent of the names of the
+    # function and of its locals, so a renaming neither drops nor widens an exception
+    ("skactiveml/pool/_expected_error_reduction.py",
+     ("v1 = self._logloss_estimation(v2, v2)", "v1 = self._risk_estimation(v2, v3, self.cost_matrix_, v4[v5])")):
         "self.method is validated to one of the two literals in _validate_init_params before any estimate",
-    ("MonteCarloEER._estimate_error_for_candidate", "err"):
-        "self.method is validated to one of the two literals in _validate_init_params before any estimate",
-    ("_d_2", "D2"):
+    ("skactiveml/pool/_badge.py", ("v1 = np.minimum(v2, np.square(v3))",)):
         "every call with a non-empty index list passes d_latest (Badge.query)",
-    ("_smacof_single_p", "_stress"): "max_iter >= 1 in the fixed parameter dict built by _alce",
-    ("_smacof_single_p", "it"): "max_iter >= 1 in the fixed parameter dict built by _alce",
-    ("smacof_p", "best_iter"): "n_init >= 1 in the fixed parameter dict built by _alce",
+    ("skactiveml/pool/_cost_embedding_al.py",
+     ("v1 /= 2", "v1 = (v2.ravel() * (v3.ravel() - v4.ravel()) ** 2).sum()")):
+        "max_iter >= 1 in the fixed parameter dict built by _alce",
+    ("skactiveml/pool/_cost_embedding_al.py", ("for v1 in range(v2)",)):
+        "max_iter >= 1 in the fixed parameter dict built by _alce (loop counter read after the loop)",
+    ("skactiveml/pool/_cost_embedding_al.py", ("v1 = v2", "v1 = v2[v3]")):
+        "n_init >= 1 in the fixed parameter dict built by _alce",
 }
+
+
+def binding_key(node, name):
+    out = set()
+    for a in ast.walk(node):
+        if isinstance(a, ast.Assign) and any(isinstance(x, ast.Name) and x.id == name for t in a.targets for x in (
+                t.elts if isinstance(t, (ast.Tuple, ast.List)) else [t])):
+            out.add(norm_stmt(a, 100))
+        elif isinstance(a, (ast.AugAssign, ast.AnnAssign)) and isinstance(a.target, ast.Name) and a.target.id == name:
+            out.add(norm_stmt(a, 100))
+        elif isinstance(a, ast.For) and any(isinstance(x, ast.Name) and x.id == name for x in ast.walk(a.target)):
+            out.add(norm_stmt(a, 100))
+    return tuple(sorted(out))
 
 
 def callname(c):
@@ -290,7 +308,7 @@ def run(p, report, tier):
                 report.add("R1.7", qual, "all locals bound before use", f"{f.file}:{node.lineno}", True,
                            nontrivial=len(local_names(node)) > 3)
             for name, (n, why) in sorted(da.reports.items()):
-                exc = DA_EXCEPTIONS.get((qual, name))
+                exc = DA_EXCEPTIONS.get((f.file, binding_key(node, name)))
                 report.add("R1.7", qual, f"local '{name}' read before assignment", f"{f.file}:{n.lineno}",
                            exc is not None,
                            detail=("infeasible: " + exc) if exc else f"unbound on the path where: {why}")
